@@ -50,7 +50,7 @@ def make_case(unit):
     template = TEMPLATES[i % len(TEMPLATES)]
     j = i // len(TEMPLATES)
     wmode = WEIGHTS[j % len(WEIGHTS)]
-    mset = MEASURE_SETS[(j // len(WEIGHTS)) % len(MEASURE_SETS)]
+    mset = MEASURE_SETS[gen.stratum(ID, i, 1, len(MEASURE_SETS))]
     N = g.pick([0, 1, 2, 5, 8, 13, 21, 34, 55, 60, 40, 30])
     if template == "nub":
         facets = []
